@@ -12,4 +12,4 @@ ASSUMPTIONS = [
     "documents of the namespace-free C01 domain (elements, attributes, text, tails, comments); namespaced documents are exercised by the oracle streams only",
     "similarity values (difflib.SequenceMatcher, sqrt) are an oracle recorded from the real node_ratio for every comparable pair",
 ]
-_cluster.make(sys.modules[__name__], 'C01', {'U1','U2','U4','U5','E2E'}, [('main',3000),('simple',1000),('wide',300)], [('main',60000),('simple',20000),('equal',5000),('wide',5000)])
+_cluster.make(sys.modules[__name__], 'C01', {'U1','U2','U4','U5','E2E'}, [('main',3000),('simple',1000),('wide',300),('ns',800)], [('main',60000),('simple',20000),('equal',5000),('wide',5000),('ns',20000)])
